@@ -348,3 +348,71 @@ M('C07-n-split-decimal-row', 'C07', F_LEXER,
   "(re.compile(br'[0-9]+\\.(?!\\.)[0-9]*([eE][+-]?[0-9]+)?'), TokNumber),\n"
   "    (re.compile(br'[0-9]+([eE][+-]?[0-9]+)?'), TokNumber),",
   kind='neutral')
+
+# ---------------------------------------------------------------- C02 ----
+M('C02-revert-fix02-fresh', 'C02', F_LUA,
+  "                if (new_name not in MinifyNameFactory.PRESERVED_NAMES and\n"
+  "                        (self._names_to_keep is None or\n"
+  "                         new_name not in self._names_to_keep)):\n",
+  "                if new_name not in MinifyNameFactory.PRESERVED_NAMES:\n",
+  expect='R-C02-fresh')
+M('C02-drop-preserved-filter', 'C02', F_LUA,
+  "                if (new_name not in MinifyNameFactory.PRESERVED_NAMES and\n"
+  "                        (self._names_to_keep is None or\n"
+  "                         new_name not in self._names_to_keep)):\n",
+  "                if (self._names_to_keep is None or\n"
+  "                         new_name not in self._names_to_keep):\n",
+  expect='R-C02-fresh')
+M('C02-counter-after-break', 'C02', F_LUA,
+  "                new_name = self._name_for_id(self._next_name_id)\n"
+  "                self._next_name_id += 1\n"
+  "                if (new_name not in MinifyNameFactory.PRESERVED_NAMES and\n"
+  "                        (self._names_to_keep is None or\n"
+  "                         new_name not in self._names_to_keep)):\n"
+  "                    break\n",
+  "                new_name = self._name_for_id(self._next_name_id)\n"
+  "                if (new_name not in MinifyNameFactory.PRESERVED_NAMES and\n"
+  "                        (self._names_to_keep is None or\n"
+  "                         new_name not in self._names_to_keep)):\n"
+  "                    break\n"
+  "                self._next_name_id += 1\n",
+  expect='R-C02-counter')
+M('C02-radix-mismatch', 'C02', F_LUA,
+  "                    id % len(MinifyNameFactory.NAME_CHARS)]",
+  "                    id % 25]", expect='R-C02-enum')
+M('C02-names-file-text-mode', 'C02', F_LUA,
+  "        with open(fname, 'rb') as fh:\n            for line in fh:\n                line = line.strip()",
+  "        with open(fname, 'r') as fh:\n            for line in fh:\n                line = line.strip()",
+  expect='R-C02-reserved')
+M('C02-drop-builtin', 'C02', F_LUA,
+  "    b'btn', b'btnp',\n", "    b'btn',\n", expect='R-C02-reserved')
+M('C02-overwrite-mapping', 'C02', F_LUA,
+  "        if name not in self._name_map:\n            new_name = None\n",
+  "        if name not in self._name_map or len(self._name_map) > 500:\n            new_name = None\n",
+  expect='R-C02-writeonce')
+M('C02-label-own-factory', 'C02', F_LUA,
+  "                    self._name_factory.get_short_name(token.code[2:-2]) +",
+  "                    MinifyNameFactory().get_short_name(token.code[2:-2]) +",
+  expect='R-C02-factory')
+M('C02-uppercase-alphabet', 'C02', F_LUA,
+  "    NAME_CHARS = b'abcdefghijklmnopqrstuvwxyz'",
+  "    NAME_CHARS = b'abcdefghijklmnopqrstuvwxyz0'", expect='R-C02-enum')
+M('C02-keep-arg-typo', 'C02', F_TOOL,
+  "            'keep_names_from_file': args.keep_names_from_file})\n\n\ndef luafmt",
+  "            'keep_names_file': args.keep_names_from_file})\n\n\ndef luafmt",
+  expect='R-C01-wiring')
+M('C02-clear-map', 'C02', F_LUA,
+  "        if self._keep_all_names:\n            return name\n",
+  "        if self._keep_all_names:\n            return name\n"
+  "        if len(self._name_map) > 4096:\n            self._name_map.clear()\n",
+  expect='R-C02-writeonce')
+M('C02-n-keep-test-as-continue', 'C02', F_LUA,
+  "                if (new_name not in MinifyNameFactory.PRESERVED_NAMES and\n"
+  "                        (self._names_to_keep is None or\n"
+  "                         new_name not in self._names_to_keep)):\n"
+  "                    break\n",
+  "                if (new_name != b'' and\n"
+  "                        (self._names_to_keep is None or\n"
+  "                         new_name not in self._names_to_keep) and\n"
+  "                        new_name not in MinifyNameFactory.PRESERVED_NAMES):\n"
+  "                    break\n", kind='neutral', note='extra conjunct')
